@@ -1400,7 +1400,8 @@ class Workflow(Trellis):
             "SELECT i, label FROM node WHERE kind = 'st' AND NOT detached AND "
             "label = substr(?, 1, length(label))"
         )
-        path = Path(path) / ""
+        # No separator is appended: a directory already carries its trailing separator,
+        # and a file `sub` is not inside the static tree `sub/`.
         for i, label in self.db.execute(sql, (path,)):
             trees.append(StaticTree(self, i, label))
         if len(trees) > 1:
@@ -2436,10 +2437,9 @@ class Workflow(Trellis):
             Whether `path` is (inside) a static tree, or a directory that contains a
             static tree or a static file.
         """
-        # A) Inside a static tree, or a static tree root itself.
-        # Appending a separator reproduces _find_owning_static_tree's `Path(path) / ""` exactly.
-        probe = path if path.endswith(os.sep) else path + os.sep
-        if any(probe.startswith(label) for label in tree_labels):
+        # A) Inside a static tree, or a static tree root itself,
+        # with the same prefix test as _find_owning_static_tree.
+        if any(path.startswith(label) for label in tree_labels):
             return True
         if not path.endswith(os.sep):
             return False
